@@ -139,6 +139,13 @@ def main():
     units = catalog()
     rnd = random.Random(seed * 7919 + 13)
     plan = prop.plan(tier, rnd, units)        # list of jobs: {'entry', 'cases', 'opts' (dict), 'expect_covers': [...]}
+    only = os.environ.get('VERIF_ONLY')        # development aid: restrict the plan to cases whose 'entry:id' matches; the evidence says so
+    if only:
+        import re as _re
+        for job in plan: job['cases'] = [c for c in job['cases'] if _re.search(only, job['entry'] + ':' + c['id'])]
+        plan = [j for j in plan if j['cases']]
+        for j in plan: j['expect_covers'] = []
+        log('VERIF_ONLY=%s: partial development run, not a check' % only)
     os.makedirs(os.path.join(VERIF, 'replays'), exist_ok=True)
     os.makedirs(os.path.join(VERIF, 'evidence'), exist_ok=True)
     sample_dir = tempfile.mkdtemp(prefix='llse_q_')
@@ -329,7 +336,8 @@ def main():
         },
         'assumptions': getattr(prop, 'ASSUMPTIONS', []) + COMMON_ASSUMPTIONS,
     }
-    with open(os.path.join(VERIF, 'evidence', pid + '.json'), 'w') as f:
+    if only: ev['partial_development_run'] = 'VERIF_ONLY=' + only
+    with open(os.path.join(VERIF, 'evidence', pid + ('.partial' if only else '') + '.json'), 'w') as f:
         json.dump(ev, f, indent=1)
     log('%s %s: cases=%d paths=%d queries=%d solver=%.1fs violations(new)=%d known=%d problems(hard=%d soft=%d undecided=%d) wall=%.1fs' % (
         pid, tier, totals['cases'], totals['paths'], totals['queries'], totals['solver_s'], len(new_viol), sum(len(v) for v in known_hits.values()), len(hard), len(soft), undec, wall))
